@@ -319,9 +319,7 @@ def _create_mtag_raw(self, run, o, b, bh):
     # obtained through a link goes stale when that link is removed - known finding F14)
     pr = run.call(lambda: bh.data_arrays[pname])
     ph = run.expect_ok(pr, "create_mtag_raw")
-    lr = run.call(lambda: h.positions.id)
-    if lr[0] == "exc" or lr[1] != ph.id:
-        run.violation("create_result", "create_mtag_raw", "positions_link", "positions -> %r, array id %r" % (lr[1], ph.id))
+    # (that the multi-tag's positions / extents link to these arrays is what the state walk compares)
     pm = M.MArray(pname, o["type"] + "-positions", ph.id, b, np.array(raw["pos"], dtype=np.float64), "Auto")
     b.data_arrays.append(pm)
     run.remember(pm, ph)
@@ -330,9 +328,6 @@ def _create_mtag_raw(self, run, o, b, bh):
     if raw["ext"] is not None:
         er = run.call(lambda: bh.data_arrays[ename])
         eh = run.expect_ok(er, "create_mtag_raw")
-        lr = run.call(lambda: h.extents.id)
-        if lr[0] == "exc" or lr[1] != eh.id:
-            run.violation("create_result", "create_mtag_raw", "extents_link", "extents -> %r, array id %r" % (lr[1], eh.id))
         em = M.MArray(ename, o["type"] + "-extents", eh.id, b, np.array(raw["ext"], dtype=np.float64), "Auto")
         b.data_arrays.append(em)
         run.remember(em, eh)
